@@ -569,12 +569,14 @@ func c09gen(c *h.Ctx, yield func(*h.Case)) {
 		emit("recvloop-tcp", ops...)
 	}
 	// ... and a peer that goes silent: the (scaled) read time-out ends the loop
+	emitTo("corpus", "recvloop-timeout-corpus-inside-frame", "c09 open tcp 0", "c09 handler 10", "c09 rawconn 1 id", "c09 rawev 1 0 gu", "c09 conns 1",
+		"c09 rawconn 1 id", "c09 rawev 1 1 v", "c09 conns 1")
 	for i := 0; i < c.Pick(3, 24); i++ {
 		ops := []string{"c09 open tcp 0", "c09 handler 10"}
 		if r.Intn(2) == 0 {
 			ops = append(ops, "c09 handler 11")
 		}
-		ops = append(ops, "c09 rawconn 1 id", "c09 rawev 1 0 "+[]string{"t", "gt", "gxgt", "xt", "ggt"}[r.Intn(5)], "c09 conns 1")
+		ops = append(ops, "c09 rawconn 1 id", "c09 rawev 1 0 "+[]string{"t", "gt", "gxgt", "xt", "ggt", "u", "gu", "v", "gxv", "ggu"}[(i+r.Intn(2)*5)%10], "c09 conns 1")
 		if r.Intn(2) == 0 {
 			ops = append(ops, "c09 rawconn 1 id", "c09 rawev 1 1 gc")
 		}
